@@ -1,4 +1,119 @@
-//! C13: harness domain (stub).
+//! C13: the zero-copy decoder agrees with the owned decoder.
+use crate::canon::{hex, hexarg, term_text};
+use crate::oracle::oracle_for;
+use crate::tgen::{gen_term, Cfg};
 use crate::Ctx;
+use erltf::errors::DecodeError;
 
-pub fn run(_ctx: &mut Ctx) {}
+const OWNED_ONLY: [u8; 8] = [115, 80, 101, 102, 103, 114, 121, 82];
+
+pub fn owned(b: &[u8]) -> (String, Option<erltf::OwnedTerm>) {
+    crate::c01::dec_result(b)
+}
+
+pub fn borrowed(b: &[u8]) -> (String, Option<erltf::OwnedTerm>, Option<usize>) {
+    match std::panic::catch_unwind(|| erltf::decode_borrowed(b).map(|t| t.to_owned())) {
+        Ok(Ok(t)) => (format!("ok {}", term_text(&t)), Some(t), None),
+        Ok(Err(e)) => {
+            let off = e.context.byte_offset;
+            match e.error {
+                DecodeError::TrailingData(n) => (format!("trailing {}", n), None, Some(off)),
+                _ => ("err".to_string(), None, Some(off)),
+            }
+        }
+        Err(_) => ("panic".to_string(), None, None),
+    }
+}
+
+pub fn one(ctx: &mut Ctx, tag: &str, b: &[u8], modern: bool) {
+    let Some(orc) = oracle_for(b) else {
+        ctx.count("skipped_oracle_too_large");
+        return;
+    };
+    let (o, ot) = owned(b);
+    let (bw, bt, off) = borrowed(b);
+    ctx.tie(tag, &format!("dec {} {}", hexarg(b), orc), &o);
+    ctx.tie(tag, &format!("decb {} {}", hexarg(b), orc), &bw);
+    ctx.count(if ot.is_some() { "owned_ok" } else { "owned_err" });
+    ctx.count(if bt.is_some() { "borrowed_ok" } else { "borrowed_err" });
+    if o == "panic" || bw == "panic" {
+        ctx.fail("c13-panic", &format!("{} owned={} borrowed={}", hex(b), o, bw));
+    }
+    if let Some(off) = off {
+        if off > b.len() {
+            ctx.fail("c13-offset-outside-input", &format!("{} offset={} len={}", hex(b), off, b.len()));
+        }
+    }
+    if let Some(bt) = &bt {
+        match &ot {
+            Some(ot) if ot == bt && term_text(ot) == term_text(bt) => {}
+            _ => ctx.fail("c13-borrowed-differs", &format!("{} owned={} borrowed={}", hex(b), o, bw)),
+        }
+    } else if ot.is_some() {
+        let has_owned_only = b.iter().any(|x| OWNED_ONLY.contains(x));
+        if modern || !has_owned_only {
+            ctx.fail("c13-borrowed-rejects-modern", &format!("{} owned={} borrowed={}", hex(b), o, bw));
+        } else {
+            ctx.count("owned_only_accept");
+        }
+    }
+}
+
+pub fn run(ctx: &mut Ctx) {
+    let n = ctx.n(400, 8000);
+    let cfg = Cfg { local_ids: false, huge: false, ..Cfg::default() };
+    let mut pool: Vec<Vec<u8>> = vec![];
+    for _ in 0..n {
+        let t = gen_term(&mut ctx.rng, &cfg, 0);
+        let Ok(b) = erltf::encode(&t) else { continue };
+        one(ctx, "modern", &b, true);
+        // truncation at every offset (short encodings) or at a few offsets
+        if b.len() <= 48 {
+            for k in 0..b.len() {
+                one(ctx, "trunc", &b[..k], false);
+            }
+        } else {
+            for _ in 0..4 {
+                let k = ctx.rng.below(b.len() as u64) as usize;
+                one(ctx, "trunc", &b[..k], false);
+            }
+        }
+        // mutations
+        if b.len() <= 400 {
+            for _ in 0..3 {
+                let mut m = b.clone();
+                let flips = 1 + ctx.rng.below(3);
+                for _ in 0..flips {
+                    let i = ctx.rng.below(m.len() as u64) as usize;
+                    match ctx.rng.below(3) {
+                        0 => m[i] ^= 1 << ctx.rng.below(8),
+                        1 => m[i] = ctx.rng.next() as u8,
+                        _ => m[i] = *ctx.rng.pick(&[0u8, 1, 255, 97, 104, 106, 108, 116, 119, 131, 70, 77, 80, 82, 88, 89, 90, 99, 100, 115, 120, 121]),
+                    }
+                }
+                one(ctx, "mut", &m, false);
+            }
+            pool.push(b);
+        }
+    }
+    // splices of two valid encodings
+    for _ in 0..n / 2 {
+        if pool.len() < 2 {
+            break;
+        }
+        let a = ctx.rng.pick(&pool).clone();
+        let b = ctx.rng.pick(&pool).clone();
+        let i = ctx.rng.below(a.len() as u64) as usize;
+        let j = 1 + ctx.rng.below(b.len() as u64 - 1) as usize;
+        let mut s = a[..i].to_vec();
+        s.extend_from_slice(&b[j..]);
+        one(ctx, "splice", &s, false);
+    }
+    // arbitrary bytes behind the version byte
+    for _ in 0..n {
+        let len = ctx.rng.below(24) as usize;
+        let mut b = vec![131u8];
+        b.extend(ctx.rng.bytes(len));
+        one(ctx, "random", &b, false);
+    }
+}
